@@ -2,6 +2,7 @@
 """C16 — digests, HMAC and CBC compute the standard functions for all inputs, chunkings, reuse.
 See DESIGN.md section 5 (C16) and design.d/C16.md.  Usage: checks/c16.py [--tier quick|thorough] [--replay file]"""
 import os, sys, json, hashlib, hmac as pyhmac, itertools
+from concurrent.futures import ThreadPoolExecutor
 sys.path.insert(0, os.path.join(os.path.dirname(os.path.abspath(__file__)), "..", "lib"))
 from vcheck import *
 
@@ -9,9 +10,9 @@ P = "Cppcms.C16.Props."
 OBLIGATIONS = [
     (P + "md5_compress_eq_rfc1321", "translated md5_process (64 SET lines, T1..T64, F/G/H/I, ROTATE_LEFT) = compression function transcribed from RFC 1321 3.4, for every chaining value and block"),
     (P + "sha1_compress_eq_fips180", "translated sha1::process_block (schedule, f/k arms, rotates) = compression function transcribed from FIPS 180-4 6.1.2"),
-    (P + "md5_stream_eq_spec", "for every stale buffer content, every list of append calls (each < 2^31 bytes): readout = RFC 1321 MD5 of the concatenation"),
+    (P + "md5_stream_eq_spec", "for every stale buffer content and every list of append calls of any length: readout = RFC 1321 MD5 of the concatenation"),
     (P + "md5_session_eq_spec", "one md5 object used for any number of messages, any chunkings: every read-out is the MD5 of its message (reuse after readout)"),
-    (P + "md5_append_int_truncation", "documented excluded point: an append of exactly 2^31 bytes is silently ignored (size_t -> int)"),
+    (P + "md5_append_int_truncation", "md5_append(int nbytes) ignores a count of 2^31 (why md5_digets::append must chunk; D14 regression guard together with the unbounded theorems)"),
     (P + "sha1_stream_eq_spec", "for every stale block content and every chunking: readout = FIPS 180-4 SHA-1 of the concatenation (length taken mod 2^64)"),
     (P + "sha1_session_eq_spec", "one sha1 object used for any number of messages: every read-out is the SHA-1 of its message"),
     (P + "sha1_len_bytes_eq_be64", "the eight length bytes appended by get_digest are the 64-bit big-endian bit count (D6 regression guard)"),
@@ -238,7 +239,6 @@ def main():
     ]
     c.assumptions += [
         "little-endian host (md5_process reads X[k] through a word pointer; the translated big-endian branch is the model)",
-        "md5: every single append call is shorter than 2^31 bytes (int nbytes); beyond that the call is ignored (md5_append_int_truncation)",
         "SHA-2 / AES block function are OpenSSL's: the theorems hold for any lawful streaming digest / any block permutation",
         "cbc: whole 16-byte blocks only (the property's quantifier); OpenSSL's handling of a trailing partial block is not modelled",
     ]
@@ -293,15 +293,43 @@ def main():
             return cs if len(w) >= 9 else None
         return None
 
-    # ---- stream 1: implementation vs Lean model (bundled digests, hmac over them, key, cbc)
-    out_i, out_m, diffs, crashed = c.correspond("model", main_cases, hbin, model, nontrivial=nontriv)
-    # ---- libcrypto called directly on the same lines (all algorithms)
+    # ---- all runs of the real code / the model / libcrypto in parallel
     ref_cases = [l for l in main_cases if l.split()[0] not in ("key", "keyfile")] + ext
-    rc_r, out_r, err_r = c.run_lines(hbin, ref_cases, args=["ref"])
+    with ThreadPoolExecutor(max_workers=8) as ex:
+        f_i = ex.submit(c.run_lines, hbin, main_cases)
+        f_m = ex.submit(c.run_lines, model, main_cases)
+        f_r = ex.submit(c.run_lines, hbin, ref_cases, ["ref"])
+        f_e = ex.submit(c.run_lines, hbin, ext)
+        f_b = [ex.submit(c.run_lines, hbin, [l]) for l in big]          # one process per long message
+        f_br = [ex.submit(c.run_lines, hbin, [l], ["ref"]) for l in big]
+        rc_i, out_i, err_i = f_i.result()
+        rc_m, out_m, err_m = f_m.result()
+        rc_r, out_r, err_r = f_r.result()
+        rc_e, out_e, err_e = f_e.result()
+        big_runs = ([f.result() for f in f_b], [f.result() for f in f_br])
+    # ---- stream 1: implementation vs Lean model (bundled digests, hmac over them, key, cbc)
+    diffs = []
+    for k, l in enumerate(main_cases):
+        a = out_i[k] if k < len(out_i) else "<no output: harness died>"
+        b = out_m[k] if k < len(out_m) else "<no output: model driver died>"
+        if a != b:
+            diffs.append((k, l, a, b))
+    c.evaluations += len(main_cases)
+    c.traces_validated += min(len(out_i), len(out_m), len(main_cases))
+    for k in range(min(len(main_cases), len(out_m))):
+        key = nontriv(main_cases[k], out_m[k])
+        if key is not None:
+            c.nontrivial.add(key)
+    crashed = None
+    if rc_i != 0:
+        crashed = {"rc": rc_i, "stderr": err_i, "case": main_cases[len(out_i)] if len(out_i) < len(main_cases) else None}
+    if rc_m != 0:
+        c.broke("model driver crashed on stream model", err_m)
+    c.log(f"correspond[model]: {len(main_cases)} cases, {len(diffs)} diffs, impl rc={rc_i}, model rc={rc_m}")
+    # ---- libcrypto called directly on the same lines (all algorithms)
     if rc_r != 0 or len(out_r) != len(ref_cases):
         c.broke("reference run (libcrypto)", err_r)
     # ---- stream 2: OpenSSL-backed digests: implementation vs libcrypto vs python
-    rc_e, out_e, err_e = c.run_lines(hbin, ext)
     ext_crash = None
     if rc_e != 0:
         ext_crash = {"case": ext[len(out_e)] if len(out_e) < len(ext) else None, "stderr": err_e}
@@ -367,19 +395,18 @@ def main():
     # ---- stream 3: long messages (implementation vs libcrypto only)
     big_res = []
     if big:
-        rc_b, out_b, err_b = c.run_lines(hbin, big)
-        rc_br, out_br, err_br = c.run_lines(hbin, big, args=["ref"])
         c.evaluations += len(big)
         for k, l in enumerate(big):
-            a = out_b[k] if k < len(out_b) else "<died>"
-            b = out_br[k] if k < len(out_br) else "<died>"
+            (rc_b, out_b, err_b), (rc_br, out_br, err_br) = big_runs[0][k], big_runs[1][k]
+            a = out_b[0] if out_b else "<died>"
+            b = out_br[0] if out_br else "<died>"
+            if rc_b != 0:
+                crashed = crashed or {"case": l, "stderr": err_b}
             big_res.append((l, a, b))
             if a != b:
                 bad.append((l, f"differs from libcrypto: impl={a} libcrypto={b}"))
             else:
                 c.nontrivial.add(l)
-        if rc_b != 0:
-            crashed = crashed or {"case": big[len(out_b)] if len(out_b) < len(big) else None, "stderr": err_b}
 
     dist = {}
     for cs in cases:
